@@ -794,6 +794,17 @@ fn real_strategy_random() -> BoxedStrategy<RealCase> {
             } else {
                 exps
             };
+            // echo family (every 7th case by construction of the raw material): the output is the
+            // expectation source text itself, modifiers included (a command that prints its own test)
+            let output = if !identity && exps.len() % 7 == 3 || (!identity && lines.len() == 1) {
+                let mut o = exps.join("\n").into_bytes();
+                if !o.is_empty() {
+                    o.push(b'\n');
+                }
+                o
+            } else {
+                output
+            };
             RealCase { exps, output, cram }
         })
         .boxed()
